@@ -13,9 +13,10 @@ Record env := mkEnv { ev_frag : list N; ev_rfail : option N; ev_accept : list N;
 Definition env_io (e : env) (data : list N) : io :=
   mkIo (src_of data (cyc (ev_frag e)) (ev_rfail e)) (snk_new (cyc (ev_accept e)) (ev_wfail e) (ev_ffail e)).
 
-Record result := mkResult { r_verdict : outcome unit; r_out : list N; r_pos : N; r_flushes : N }.
+Record result := mkResult { r_verdict : outcome unit; r_out : list N; r_pos : N; r_flushes : N; r_refills : N; r_wcalls : N }.
 Definition result_of (r : outcome unit * io) : result :=
-  mkResult (fst r) (snk_bytes (i_snk (snd r))) (s_pos (i_src (snd r))) (k_flushes (i_snk (snd r))).
+  mkResult (fst r) (snk_bytes (i_snk (snd r))) (s_pos (i_src (snd r))) (k_flushes (i_snk (snd r)))
+           (s_refills (i_src (snd r))) (k_calls (i_snk (snd r))).
 
 Definition api_lzma_dec (o : options) (e : env) (data : list N) : result :=
   result_of (lzma_decompress big_fuel o (env_io e data)).
@@ -44,8 +45,8 @@ Definition api_stream_new (o : options) (e : env) : stream :=
 Definition api_stream_out (s : stream) : list N := snk_bytes (stream_sink s).
 
 (* reference encoders of the format theory *)
-Definition api_ref_lzma := enc_lzma.
-Definition api_ref_payload := enc_payload.
-Definition api_ref_lzma2 := ser2.
+Definition api_ref_lzma := enc_lzma_gen.
+Definition api_ref_payload := enc_payload_gen.
+Definition api_ref_lzma2 := ser2_gen.
 Definition api_crc32 := crc32_exec.
 Definition api_crc64 := crc64_exec.
